@@ -600,3 +600,165 @@ pub fn run_epoch(case: &EpochCase) -> EpochRun {
     d.u64(violation.is_some() as u64);
     EpochRun { violation, digest: d.finish() }
 }
+
+// --------------------------------------------------------------- long builds
+
+/// C07, "returning Interrupted any number of times": ONE long build whose
+/// sink asks for a retry before every single write call for the whole life of
+/// the builder (never twice in a row, every buffer accepted afterwards — a
+/// healthy file on a machine with a busy signal handler). Millions of
+/// Interrupted in total, none of them part of a burst. The keys come from a
+/// generator (zero-padded counter + pseudo-random tail), so the case is three
+/// numbers however long the build is.
+#[derive(Clone, Debug, PartialEq, Eq)]
+pub struct LongCase {
+    pub n: u64,
+    pub seed: u64,
+    pub valued: bool,
+    /// every `short_every`-th accepted call takes one byte only (0 = never)
+    pub short_every: u64,
+}
+
+pub struct LongRun {
+    pub violation: Option<Violation>,
+    pub digest: u64,
+    pub interrupted: u64,
+    pub write_calls: u64,
+    pub shorts: u64,
+    pub bytes: u64,
+}
+
+struct LongSink {
+    buf: Vec<u8>,
+    armed: bool,
+    interrupted: u64,
+    calls: u64,
+    accepted_calls: u64,
+    shorts: u64,
+    short_every: u64,
+}
+
+impl std::io::Write for LongSink {
+    fn write(&mut self, b: &[u8]) -> std::io::Result<usize> {
+        self.calls += 1;
+        if !self.armed {
+            self.armed = true;
+            self.interrupted += 1;
+            return Err(std::io::Error::from(std::io::ErrorKind::Interrupted));
+        }
+        self.armed = false;
+        self.accepted_calls += 1;
+        let n = if self.short_every > 0 && b.len() > 1 && self.accepted_calls % self.short_every == 0 {
+            self.shorts += 1;
+            1
+        } else {
+            b.len()
+        };
+        self.buf.extend_from_slice(&b[..n]);
+        Ok(n)
+    }
+    fn flush(&mut self) -> std::io::Result<()> {
+        Ok(())
+    }
+}
+
+pub fn long_key(seed: u64, j: u64, buf: &mut Vec<u8>) -> u64 {
+    buf.clear();
+    let mut div = 26u64.pow(6);
+    let mut rem = j % 26u64.pow(7);
+    for _ in 0..7 {
+        buf.push(b'a' + (rem / div) as u8);
+        rem %= div;
+        div = std::cmp::max(1, div / 26);
+    }
+    let mut x = crate::rng::mix(seed, 0x10c6, j);
+    let tail = 2 + (x % 9) as usize;
+    for _ in 0..tail {
+        x = x.rotate_left(11).wrapping_mul(0x9e37_79b9_7f4a_7c15) ^ j;
+        buf.push(b'a' + (x % 23) as u8);
+    }
+    x % 100_000
+}
+
+pub fn run_long(case: &LongCase) -> LongRun {
+    let mut run = LongRun { violation: None, digest: 0, interrupted: 0, write_calls: 0, shorts: 0, bytes: 0 };
+    let r = catch_unwind(AssertUnwindSafe(|| -> (Option<Violation>, u64, u64, u64, u64) {
+        let v = |o: &str, s: String| Some(Violation { oracle: o.to_string(), observed: s });
+        let mut key: Vec<u8> = Vec::with_capacity(32);
+        // the in-memory build of the same sequence
+        let mut m = raw::Builder::memory();
+        for j in 0..case.n {
+            let val = long_key(case.seed, j, &mut key);
+            let r = if case.valued { m.insert(&key, val) } else { m.add(&key) };
+            if let Err(e) = r {
+                return (v("C07.harness.reference_build_failed", format!("key {}: {}", j, e)), 0, 0, 0, 0);
+            }
+        }
+        let reference = match m.into_inner() {
+            Ok(b) => b,
+            Err(e) => return (v("C07.harness.reference_build_failed", format!("finish: {}", e)), 0, 0, 0, 0),
+        };
+        let mut sink = LongSink { buf: Vec::with_capacity(reference.len()), armed: false, interrupted: 0, calls: 0, accepted_calls: 0, shorts: 0, short_every: case.short_every };
+        let mut bad: Option<Violation> = None;
+        {
+            let mut b = match raw::Builder::new(&mut sink) {
+                Ok(b) => b,
+                Err(e) => return (v("C07.S1.build_failed_on_benign_sink", format!("constructor failed on a sink that returns Interrupted once before every write call: {}", e)), 0, 0, 0, 0),
+            };
+            for j in 0..case.n {
+                let val = long_key(case.seed, j, &mut key);
+                let r = if case.valued { b.insert(&key, val) } else { b.add(&key) };
+                if let Err(e) = r {
+                    bad = v(
+                        "C07.S1.build_failed_on_benign_sink",
+                        format!("insert {} of {} failed on a sink that returns Interrupted once before every write call and then accepts the buffer: {}", j, case.n, e),
+                    );
+                    break;
+                }
+            }
+            if bad.is_none() {
+                if let Err(e) = b.finish() {
+                    bad = v("C07.S1.build_failed_on_benign_sink", format!("finish failed after {} inserts on a sink that returns Interrupted once before every write call: {}", case.n, e));
+                }
+            }
+        }
+        let stats = (sink.interrupted, sink.calls, sink.shorts, sink.buf.len() as u64);
+        if let Some(mut x) = bad {
+            x.observed = format!("{} ({} Interrupted returned so far, {} bytes accepted)", x.observed, sink.interrupted, sink.buf.len());
+            return (Some(x), stats.0, stats.1, stats.2, stats.3);
+        }
+        if sink.buf != reference {
+            let n = std::cmp::min(sink.buf.len(), reference.len());
+            let p = (0..n).find(|&i| sink.buf[i] != reference[i]).unwrap_or(n);
+            return (
+                v(
+                    "C07.S2.bytes_differ_from_memory_build",
+                    format!("{} keys, {} Interrupted in total: sink holds {} bytes, the in-memory build {} bytes, first difference at {}", case.n, sink.interrupted, sink.buf.len(), reference.len(), p),
+                ),
+                stats.0,
+                stats.1,
+                stats.2,
+                stats.3,
+            );
+        }
+        (None, stats.0, stats.1, stats.2, stats.3)
+    }));
+    match r {
+        Ok((viol, i, c, s, b)) => {
+            run.violation = viol;
+            run.interrupted = i;
+            run.write_calls = c;
+            run.shorts = s;
+            run.bytes = b;
+        }
+        Err(p) => run.violation = Some(Violation { oracle: "C07.panic".into(), observed: panic_msg(p) }),
+    }
+    let mut d = Digest::new();
+    d.u64(case.n);
+    d.u64(run.interrupted);
+    d.u64(run.write_calls);
+    d.u64(run.bytes);
+    d.u64(run.violation.is_some() as u64);
+    run.digest = d.finish();
+    run
+}
